@@ -11,6 +11,7 @@ From Spowtd Require Import Model.ClassifyEpochs Model.DepthView Proofs.ShiftSpec
   Proofs.DepthViewSpec.
 From Spowtd Require Import Model.Load Model.ClassifyCommand Model.LoadText Proofs.TimeZoneSpec
   Proofs.LoadClassifyLink Proofs.LoadShiftSpec.
+From Spowtd Require Model.Views Proofs.ViewsShiftSpec.
 From Coq Require String.
 Close Scope Q_scope.
 
@@ -136,4 +137,29 @@ Example C07_load_refusal_example :
   load_model false String.EmptyString (c07_r (0) (1) 1 :: c07_rain) c07_et c07_wl = Err EIntegrity /\
   load_model false String.EmptyString (shift_series 7 (c07_r (0) (1) 1 :: c07_rain)) (shift_series 7 c07_et)
     (shift_series 7 c07_wl) = Err EIntegrity.
+Proof. vm_compute. split; reflexivity. Qed.
+
+(** "... and both master curves unchanged", at the level they are read: the
+    views average_rising_depth / average_recession_time (Model/Views.v) join the
+    offsets and crossings tables on the interval's start epoch and on nothing
+    else that is a time; shifting the start epochs of both tables by the same d
+    leaves every row of the view - level and value - as it was. *)
+Theorem C07_master_curve_views_time_shift : forall d offsets crossings grid step,
+  Views.view_average (ViewsShiftSpec.shift_offset_keys d offsets)
+                     (ViewsShiftSpec.shift_crossing_keys d crossings) grid step
+  = Views.view_average offsets crossings grid step /\
+  Views.view_levels (ViewsShiftSpec.shift_offset_keys d offsets)
+                    (ViewsShiftSpec.shift_crossing_keys d crossings) grid
+  = Views.view_levels offsets crossings grid.
+Proof. exact ViewsShiftSpec.view_average_time_shift. Qed.
+Print Assumptions C07_master_curve_views_time_shift.
+
+Example C07_view_shift_example :
+  Views.view_average (ViewsShiftSpec.shift_offset_keys 7 [(100, Qmake 3 1); (200, Qmake 8 1)]%Z)
+                     (ViewsShiftSpec.shift_crossing_keys 7 [(100, 1, Qmake 8 1); (200, 1, Qmake 3 1); (200, 2, Qmake 1 1)]%Z)
+                     [1; 2; 3]%Z (Qmake 1 2)
+  = Views.view_average [(100, Qmake 3 1); (200, Qmake 8 1)]%Z
+                       [(100, 1, Qmake 8 1); (200, 1, Qmake 3 1); (200, 2, Qmake 1 1)]%Z [1; 2; 3]%Z (Qmake 1 2)
+  /\ length (Views.view_average [(100, Qmake 3 1); (200, Qmake 8 1)]%Z
+                       [(100, 1, Qmake 8 1); (200, 1, Qmake 3 1); (200, 2, Qmake 1 1)]%Z [1; 2; 3]%Z (Qmake 1 2)) = 2%nat.
 Proof. vm_compute. split; reflexivity. Qed.
